@@ -203,7 +203,12 @@ def run_stream(spec, prop, schema):
     for k in range(spec["triples"]):
         gen = NBGen(r, exotic=(k % 5 == 0))
         minor = k % 6 if schema else None
-        cls, b, l, rm, info, waste = valid_triple(gen, minor=minor)
+        want = None
+        if k % 16 == 5:
+            # id-aligned cells whose text one side cleared / both typed into: the cells stay aligned whatever the texts
+            # are, so the text conflict reaches the line merger and its external helpers
+            want, minor = "empty_source", 5
+        cls, b, l, rm, info, waste = valid_triple(gen, cls=want, minor=minor)
         if waste:
             col.count("generator_waste_invalid", waste)
         if cls is None:
@@ -213,6 +218,11 @@ def run_stream(spec, prop, schema):
             col.count("triples_under_all_282x3")
         else:
             cfgs = [(c, variants[(k + j) % len(variants)]) for j, c in enumerate(covering_configs(r, spec["cfgs"]))]
+        if cls in ("empty_source", "same_line", "cr_progress", "nul_in_source", "same_insert_edit_below", "same_edit_insert_above") and len(cfgs) < 50:
+            # classes whose text conflicts go through the external helpers: the default configuration under EVERY tool set
+            dflt = {"merge": "inline", "input": None, "output": None, "ignore_transients": True}
+            cfgs = cfgs + [(dflt, v) for v in variants]
+            col.count("text_helper_classes_under_every_tool_set")
         if cls == "long_notebook" and len(cfgs) > 3:
             cfgs = cfgs[:3]          # ~1 s per merge: three configurations per long notebook
         for cfg, variant in cfgs:
